@@ -321,6 +321,34 @@ INFO7 = {
  "C20-14": ("KeyCertificate type accessors decode with binary.BigEndian.Uint16(field)", "zero value KeyCertificate{}"),
 }
 MISSED_FIRST_7 = ["C16-13", "C16-14", "C04-13", "C05-13", "C05-14", "C06-14", "C10-13", "C10-14", "C03-14", "C14-14", "C08-13", "C08-14"]
+# round 8 (same brief with all fourteen earlier changes listed; twelve properties only); patch k kept as <ID>-<k+14>
+INFO8 = {
+ "C03-15": ("ReadOfflineSignature checks the signature length against len(data) (whole input) instead of the remainder", "OfflineSignature cut inside its trailing signature while the whole input is still at least one signature long (panic)"),
+ "C03-16": ("ReadMapping's empty-mapping shortcut also taken when nothing follows the size field", "non-empty mapping (or RouterAddress) cut exactly after the 2-byte size field"),
+ "C04-15": ("extractPaddingFromData derives the padding from the two per-field paddings; the separate oversize guard is dropped", "KEY certificate with signing type 3 / 4 (P-521, RSA-2048) and crypto type 4..7 (32-byte key): padding[:224] panics"),
+ "C04-16": ("ReadDestinationFromLeaseSet loses its minimum-length check", "exported function called directly with fewer than 384 bytes (nil included)"),
+ "C05-15": ("parseTransportType trims white space from the parsed transport_style and rebuilds the string", "white-space bytes inserted at either end of an address's transport_style of a signed RouterInfo, length byte raised to match"),
+ "C05-16": ("MetaLeaseSet entry type stored as data[0] & 0x0f", "any of bits 7..4 set in an entry's type byte of a signed MetaLeaseSet"),
+ "C06-15": ("RouterInfo.Bytes() prerequisite: size field must agree with the address list, \"or len(addresses) == 0\" added by a slip", "RouterInfo with no addresses"),
+ "C06-16": ("VerifySignature prerequisite: published == nil or published.IsZero()", "RouterInfo published at the Unix epoch (0 ms)"),
+ "C08-15": ("certificate kind / len / payload carved out of one private buffer: append in Bytes() / RawBytes() / KeyCertificate.Data() writes in place and returns the certificate's own storage", "overwriting a slice returned by one of those accessors, then observing the certificate again - accessors that do not promise a copy: outside the second clause of C08; the in-place append makes Bytes() a writer, reported by C18 as a data race"),
+ "C08-16": ("signature.NewSignature builds the value from the uncopied view data[:n:n]; ReadSignature and NewSignatureFromBytes still copy", "NewSignature called directly, input overwritten afterwards"),
+ "C09-15": ("parseRouterInfoSignature always reads the signature type through the KEY-certificate helper", "ReadRouterInfo of an identity with a NULL certificate (DSA_SHA1, ElGamal)"),
+ "C09-16": ("MetaLeaseSet offline block: a switch over the allowed destination signing types forgets RedDSA", "MetaLeaseSet with the offline-keys flag and a destination declaring signing type 11"),
+ "C10-15": ("LeaseSet2 encryption-key validation looks sizes up in a local helper that lists crypto types 0 and 4..7 only", "LeaseSet2 encryption key of type 1, 2 or 3 with the wrong length (NewLeaseSet2, Validate)"),
+ "C10-16": ("NewEncryptedLeaseSet compares the blinded key length with the Ed25519 size instead of the table's size for the type", "NewEncryptedLeaseSet with signing types 0..6"),
+ "C13-15": ("DecodeStringSafe joins wrapped lines with bufio.Scanner and never looks at its error", "text with at least one CR / LF and a line of 65,536 characters or more"),
+ "C13-16": ("validateEncodedInput: case pad > 0 && c != '=' hoisted above the CR / LF case", "padded base32 with a CR / LF after the first '='"),
+ "C14-15": ("ToI2PString checks the 255 limit in runes; the prefix is still byte(len(data))", "string of more than 255 bytes but at most 255 runes (multi-byte UTF-8) through GoMapToMapping / NewRouterAddress / NewRouterInfo"),
+ "C14-16": ("NewRouterInfo builds the address count with byte(len(addresses))", "NewRouterInfo with more than 255 addresses"),
+ "C15-15": ("NewLease2 maps the zero time.Time to the epoch above the range check", "NewLease2(time.Time{}) (Unix second -62135596800)"),
+ "C15-16": ("NewDateFromUnix detects overflow by the sign of timestamp*1000", "seconds >= 2^64/1000 whose product wraps to a non-negative value"),
+ "C16-15": ("DecryptInnerData rejects an all-zero cookie; EncryptInnerLeaseSet2 accepts it", "cookie of 32 zero bytes"),
+ "C16-16": ("decryptWithAEAD opens in place (Open(sealed[:0], ...)) on a sub-slice of the stored ciphertext", "one EncryptedLeaseSet value decrypted twice, or serialised after a decrypt"),
+ "C18-15": ("RouterInfo.RouterAddresses() filters nil entries in place (addresses[:0] + append)", ">= 2 goroutines on a RouterInfo with an address, one in an address query"),
+ "C18-16": ("EncryptedLeaseSet.bytesWithoutSignature() sets the offline-keys flag on the struct field (value already stored)", "EncryptedLeaseSet with an offline-signature block, >= 2 goroutines, one in Bytes() / Verify()"),
+}
+MISSED_FIRST_8 = ["C05-15", "C05-16", "C08-15", "C10-16", "C13-15", "C14-16", "C15-15", "C15-16", "C16-15"]
 MISSED_FIRST_2 = ["C05-4", "C06-3", "C07-4", "C09-3", "C10-4", "C15-3", "C17-3", "C18-4", "C19-3", "C19-4"]
 
 
@@ -344,6 +372,7 @@ def main():
     allinfo.update(INFO5)
     allinfo.update(INFO6)
     allinfo.update(INFO7)
+    allinfo.update(INFO8)
     for key in sorted(allinfo):
         pid, k = key.split("-")
         round2 = key in INFO2
@@ -352,6 +381,7 @@ def main():
         round5 = key in INFO5
         round6 = key in INFO6
         round7 = key in INFO7
+        round8 = key in INFO8
         if round2:
             k = str(int(k) - 2)
         if round3:
@@ -364,7 +394,9 @@ def main():
             k = str(int(k) - 10)
         if round7:
             k = str(int(k) - 12)
-        src = os.path.join(SRC, ("R7" if round7 else "R6" if round6 else "R5" if round5 else "R4" if round4 else "R3" if round3 else "R2" if round2 else "") + pid + "-out")
+        if round8:
+            k = str(int(k) - 14)
+        src = os.path.join(SRC, ("R8" if round8 else "R7" if round7 else "R6" if round6 else "R5" if round5 else "R4" if round4 else "R3" if round3 else "R2" if round2 else "") + pid + "-out")
         conf = os.path.join(src, "confirm%s.json" % k)
         if not os.path.exists(conf):
             continue
@@ -382,7 +414,7 @@ def main():
         if os.path.exists(os.path.join(src, "notes.md")):
             shutil.copy(os.path.join(src, "notes.md"), os.path.join(dst, "notes.md"))
         caught, missed, detail = [], [], {}
-        rp = os.path.join(SRC, "results7" if round7 else "results6" if round6 else "results5" if round5 else "results4" if round4 else "results3" if round3 else "results2" if round2 else "results", "%s-%s.json" % (pid, k))
+        rp = os.path.join(SRC, "results8" if round8 else "results7" if round7 else "results6" if round6 else "results5" if round5 else "results4" if round4 else "results3" if round3 else "results2" if round2 else "results", "%s-%s.json" % (pid, k))
         if os.path.exists(rp):
             try:
                 r = json.load(open(rp))
@@ -409,9 +441,9 @@ def main():
                 how="seedtool.py confirm: patch applied in a scratch worktree of /repo, `go build ./...`, full existing suite (`go test -vet=off -count=1 ./...`), demo with the patch, patch reverted, demo again" + (" (demo under -race)" if pid == "C18" else ""),
                 suite_passes_with_patch=c.get("suite_rc") == 0, demo_fails_with_patch=c.get("demo_rc_with") != 0, demo_passes_without_patch=c.get("demo_rc_without") == 0,
                 demo_dir=c.get("demo_dir")),
-            checks_run=("quick tier of the target check (and of the neighbouring checks listed) against a scratch worktree with the patch applied (seedtool.py run, VERIF_REPO)" if (round2 or round3 or round4 or round5 or round6 or round7) else "quick tier of every check against a scratch worktree with the patch applied (seedtool.py run, VERIF_REPO)"),
-            missed_at_first=(key in MISSED_FIRST_2) if round2 else (key in missed3) if round3 else (key in MISSED_FIRST_4) if round4 else (key in MISSED_FIRST_5) if round5 else (key in MISSED_FIRST_6) if round6 else (key in MISSED_FIRST_7) if round7 else None,
-            round=7 if round7 else 6 if round6 else 5 if round5 else 4 if round4 else 3 if round3 else 2 if round2 else 1,
+            checks_run=("quick tier of the target check (and of the neighbouring checks listed) against a scratch worktree with the patch applied (seedtool.py run, VERIF_REPO)" if (round2 or round3 or round4 or round5 or round6 or round7 or round8) else "quick tier of every check against a scratch worktree with the patch applied (seedtool.py run, VERIF_REPO)"),
+            missed_at_first=(key in MISSED_FIRST_2) if round2 else (key in missed3) if round3 else (key in MISSED_FIRST_4) if round4 else (key in MISSED_FIRST_5) if round5 else (key in MISSED_FIRST_6) if round6 else (key in MISSED_FIRST_7) if round7 else (key in MISSED_FIRST_8) if round8 else None,
+            round=8 if round8 else 7 if round7 else 6 if round6 else 5 if round5 else 4 if round4 else 3 if round3 else 2 if round2 else 1,
             caught_by=sorted(caught), first_report=detail.get(pid) or (detail[sorted(detail)[0]] if detail else ""),
             not_reporting=sorted(missed))
         json.dump(meta, open(os.path.join(dst, "meta.json"), "w"), indent=1)
